@@ -78,20 +78,8 @@ def consts(fams, scen, maxrows, depth, unhash, ndom=3, dev_view=False, dev_full=
                 DevViewUniqueStale=dev_view, DevFullFetchmany0=dev_full)
 
 
-def _dump(args):
-    gid, c, work = args
-    cfgt = tlc.cfg(constants=c, init="InitEmit", invariants=INVS, properties=PROPS, view="View", action_constraints=["Emit"],
-                   constraints=["Depth"])
-    g = graph.dump("ResultCursor", cfgt, os.path.join(work, "tlc_" + gid), timeout=2400, heap="3g")
-    return gid, g
-
-
-GROUP = 3      # configurations per TLC run (one single-worker JVM dumps the edges of up to GROUP families)
-
-
-def build_graphs(chk, plan):
-    """One TLC run (model check + edge dump) per (scenario, bounds, group of <= GROUP configurations).
-    Returns {gid: Graph}, {gid: (consts, [(impl, cfg)], depth, unhash)}"""
+def graph_plan(plan):
+    """{gid: (consts, [(impl, cfg)], depth, unhash)} - one TLC run per (scenario, bounds, group of <= GROUP configurations)"""
     need = {}
     for scen, maxrows, depth, ndom, impls, unhash in plan:
         cfgs = {}
@@ -108,10 +96,49 @@ def build_graphs(chk, plan):
             grp = names[k:k + GROUP]
             gid = "%s%d%d%d-%d" % (scen, maxrows, depth, ndom, k // GROUP)
             need[gid] = (consts(grp, scen, maxrows, depth, unhash, ndom), [(i, c) for c in grp for i in cfgs[c]], depth, unhash)
-    par = max(1, min(len(need), tlc.NPROC // 2 if tlc.NPROC > 2 else 1, 8))
+    return need
+
+
+GROUP = 3      # configurations per TLC run (one single-worker JVM dumps the edges of up to GROUP families)
+
+
+def _prepare(args):
+    """TLC model check + edge dump of one graph, tour planning, job file; the graph itself is dropped (memory)"""
+    gid, c, impls, depth, unhash, work, seed, quick = args
+    cfgt = tlc.cfg(constants=c, init="InitEmit", invariants=INVS, properties=PROPS, view="View", action_constraints=["Emit"],
+                   constraints=["Depth"])
+    g = rd.dump_compact("ResultCursor", cfgt, os.path.join(work, "tlc_" + gid), timeout=3000, heap="3g")
+    r = g.tlc
+    rng = random.Random("C10/%s/%s" % (seed, gid))
+    walks, st = graph.plan_tours(g, depth, rng)
+    ntour = len(walks)
+    walks += rd.memo_walks(g, depth, rng)
+    st["memo_walks"] = len(walks) - ntour
+    walks += graph.random_walks(g, max(50, ntour // 4), depth, rng)
+    job = rd.slim(g, walks, uvals=(2,) if unhash else ())
+    files = rd.write_jobs(work, {gid: job})
+    cov = {}
+    for e in g.edges:
+        cov[e[1]["a"]] = cov.get(e[1]["a"], 0) + 1
+    ws = sorted(job["walks"].items())[0][1]
+    w = ws[len(ws) // 2]
+    sample = {"graph": gid, "rows": g.states[g.edges[w[0]][0]]["rows"],
+              "calls": ["%s%s(%s)->%s" % ("v." if g.edges[ei][1]["h"] == "v" else "", g.edges[ei][1]["a"], g.edges[ei][1]["arg"],
+                                          rd._show(g.edges[ei][1]["ret"])) for ei in w]}
+    return gid, dict(file=files[gid], distinct=r.distinct, generated=r.generated, violated=r.violated, depth=r.depth, wall=round(r.wall, 1),
+                     edges=len(g.edges), plan=st, cov=cov, sample=sample,
+                     nontriv=sum(1 for e in g.edges if e[1]["idx"] or e[1]["ret"]["k"] == "err"),
+                     est={cfg: rd.job_steps(job, cfg) for _, cfg in impls})
+
+
+def build_graphs(chk, plan):
+    """Runs TLC for every graph of the plan (a few JVMs side by side) and leaves one job file per graph in chk.work.
+    Returns {gid: info}, {gid: (consts, [(impl, cfg)], depth, unhash)}"""
+    need = graph_plan(plan)
+    par = max(1, min(len(need), tlc.NPROC // 2 if tlc.NPROC > 2 else 1, 6 if chk.quick else 3))
     with ThreadPoolExecutor(par) as ex:
-        graphs = dict(ex.map(_dump, [(gid, v[0], chk.work) for gid, v in need.items()]))
-    return graphs, need
+        info = dict(ex.map(_prepare, [(gid, v[0], v[1], v[2], v[3], chk.work, chk.seed, chk.quick) for gid, v in need.items()]))
+    return info, need
 
 
 def sig_of(m, mode):
@@ -130,13 +157,11 @@ def report(chk, mism, mode):
                                                  else ("None" if arg == 99 else json.dumps(arg))) for a, h, arg in m["walk"])), m)
 
 
-def replay_compiled(chk, jobs, plan, shards=2):
-    """Replay (jobs, plan) - {gid: resultcursor_driver.slim(graph, walks)}, [(gid, impl, cfg)] - in fresh interpreters that keep the prebuilt
-    compiled _result_cy/_row_cy (VERIF_COMPILED=1).  Returns {steps, walks, mismatches, per_impl}.  Used by C10; C55 can call it with
-    its own plan (build the jobs with build_graphs + graph.plan_tours + resultcursor_driver.slim)."""
-    files = rd.write_jobs(chk.work, jobs)
-    est = {(gid, cfg): rd.job_steps(jobs[gid], cfg) for gid, _, cfg in plan}
-    hs = [rd.launch(chk.work, "c%d_%d" % (os.getpid(), i), files, sl, compiled=True) for i, sl in enumerate(rd.split(plan, est, shards))]
+def replay_compiled(chk, files, plan, est, shards=2):
+    """Replay plan = [(gid, impl, cfg)] over the job files {gid: path} written by build_graphs in fresh interpreters that keep the prebuilt
+    compiled _result_cy/_row_cy (VERIF_COMPILED=1); est = {(gid, cfg): steps} balances the shards.
+    Returns {steps, walks, mismatches, per_impl, wall}.  Used by C10; C55 can call build_graphs + replay_compiled with its own plan."""
+    hs = [rd.launch(chk.work, "c%d" % i, files, sl, compiled=True) for i, sl in enumerate(rd.split(plan, est, shards))]
     return _gather(chk, hs)
 
 
@@ -177,52 +202,43 @@ def replay(chk, path):
 
 
 def main(chk):
-    rng = random.Random(chk.seed)
+    # chk.seed seeds the per-graph planners (_prepare)
     t0 = time.time()
     plan = tier_plan(chk.quick)
-    # 1. TLC: model check every (family, scenario) against the abstract property and dump its labelled edges
-    graphs, need = build_graphs(chk, plan)
-    states = transitions = 0
-    cov = {}
-    for gid, g in graphs.items():
-        r = g.tlc
-        states += r.distinct
-        transitions += r.generated
-        if r.violated:
-            chk.violation({"spec": "ResultCursor", "action": "TLC", "invariant": r.violated, "graph": gid},
-                          "TLC: %s violated in ResultCursor.tla (%s)" % (r.violated, gid))
-        for e in g.edges:
-            cov[e[1]["a"]] = cov.get(e[1]["a"], 0) + 1
+    # 1. TLC: model check every graph against the abstract property, dump its labelled edges, plan the tours (every edge, memo-aware
+    #    triples, seeded random walks) and write one job file per graph
+    info, need = build_graphs(chk, plan)
+    states = transitions = nedges = nontriv = 0
+    cov, plans, est, files, rplan = {}, {}, {}, {}, []
+    for gid in sorted(info):
+        i = info[gid]
+        states += i["distinct"]
+        transitions += i["generated"]
+        nedges += i["edges"]
+        nontriv += i["nontriv"]
+        plans[gid] = i["plan"]
+        files[gid] = i["file"]
+        if i["violated"]:
+            chk.violation({"spec": "ResultCursor", "action": "TLC", "invariant": i["violated"], "graph": gid},
+                          "TLC: %s violated in ResultCursor.tla (%s)" % (i["violated"], gid))
+        for a, n in i["cov"].items():
+            cov[a] = cov.get(a, 0) + n
+        st = i["plan"]
+        if st["edges_covered"] + st["edges_beyond_depth"] != st["edges"]:
+            chk.machinery("tour planner left edges uncovered in %s: %r" % (gid, st))
+        for impl, cfg in need[gid][1]:
+            rplan.append((gid, impl, cfg))
+            est[(gid, cfg)] = i["est"][cfg]
+            if not est[(gid, cfg)]:
+                chk.machinery("no walks for configuration %s in %s" % (cfg, gid))
     for a in FOOTPRINT:
         if not cov.get(a):
             chk.machinery("vacuous: action %s never taken" % a)
     t_tlc = time.time() - t0
-    # 2. spec -> code: tours covering every edge of every graph (+ seeded random walks for history diversity), one job per graph
-    jobs, rplan, plans, est = {}, [], {}, {}
-    nedges = 0
-    for gid in sorted(graphs):
-        g = graphs[gid]
-        depth, unhash = need[gid][2], need[gid][3]
-        walks, st = graph.plan_tours(g, depth, rng)
-        ntour = len(walks)
-        walks += rd.memo_walks(g, depth, rng)
-        st["memo_walks"] = len(walks) - ntour
-        walks += graph.random_walks(g, max(50, ntour // 4), depth, rng)
-        plans[gid] = st
-        nedges += st["edges"]
-        if st["edges_covered"] + st["edges_beyond_depth"] != st["edges"]:
-            chk.machinery("tour planner left edges uncovered in %s: %r" % (gid, st))
-        jobs[gid] = rd.slim(g, walks, uvals=(2,) if unhash else ())
-        for impl, cfg in need[gid][1]:
-            rplan.append((gid, impl, cfg))
-            est[(gid, cfg)] = rd.job_steps(jobs[gid], cfg)
-            if not est[(gid, cfg)]:
-                chk.machinery("no walks for configuration %s in %s" % (cfg, gid))
-    files = rd.write_jobs(chk.work, jobs)
     # pure-Python shards and compiled shards (default strategy: second binding, feeds C55) run side by side in fresh interpreters
     t1 = time.time()
     cplan = [it for it in rplan if it[1] in ("cursor", "cursor_json")]
-    nsh = max(1, min(tlc.NPROC - 2, 8))
+    nsh = max(1, min(tlc.NPROC - 2, 8 if chk.quick else 6))
     hp = [rd.launch(chk.work, "p%d" % i, files, sl) for i, sl in enumerate(rd.split(rplan, est, nsh))]
     hc = [rd.launch(chk.work, "c%d" % i, files, sl, compiled=True) for i, sl in enumerate(rd.split(cplan, est, 2))]
     # 3. meanwhile: the properties are not vacuous - under each named deviation (= the pinned tree's behaviour) TLC must find the violation
@@ -242,23 +258,14 @@ def main(chk):
     report(chk, pres["mismatches"], "pure")
     report(chk, cres["mismatches"], "compiled")
     # evidence
-    nontriv = 0
-    for g in graphs.values():
-        nontriv += sum(1 for e in g.edges if e[1]["idx"] or e[1]["ret"]["k"] == "err")
-    sample = []
-    for gid in sorted(jobs)[:3]:
-        j = jobs[gid]
-        ws = sorted(j["walks"].items())[0][1]
-        w = ws[len(ws) // 2]
-        sample.append({"graph": gid, "rows": j["states"][j["edges"][w[0]][0]]["rows"],
-                       "calls": ["%s%s(%s)->%s" % ("v." if j["edges"][ei][1]["h"] == "v" else "", j["edges"][ei][1]["a"],
-                                                   j["edges"][ei][1]["arg"], rd._show(j["edges"][ei][1]["ret"])) for ei in w]})
+    sample = [info[gid]["sample"] for gid in sorted(info)[:3]]
     return chk.finish(
-        dict(states=states, transitions=transitions, graphs=len(graphs), edges=nedges,
+        dict(states=states, transitions=transitions, graphs=len(info), edges=nedges,
              traces_validated_against_impl=pres["walks"] + cres["walks"], evaluations=pres["steps"] + cres["steps"],
              steps_pure=pres["steps"], steps_compiled=cres["steps"], distinct_nontrivial=nontriv,
              implementations=len(set(it[1] for it in rplan)), per_impl_steps=pres["per_impl"], per_impl_steps_compiled=cres["per_impl"],
              samples=sample, plans=plans, action_coverage=cov, sensitivity_runs=sens, exhaustive=True,
+             tlc_runs={g_: dict(states=info[g_]['distinct'], edges=info[g_]['edges'], wall=info[g_]['wall']) for g_ in info},
              wall_tlc_s=round(t_tlc, 1), wall_replay_s=round(t_replay, 1),
              rule="every labelled edge of every ResultCursor state graph (per scenario; initial states = all row sequences up to the bound "
                   "x implementation configurations) is covered by a walk from an initial state and replayed on every implementation of that family; "
